@@ -3,6 +3,42 @@ DefaultArgsParser, project the Args object into the model's result shape.  No ve
 import json
 import os
 
+from harness.engine import budget
+
+
+class DoesNotTerminate(Exception):
+    """a parse that did not return within its budget (an observation like any other exception)"""
+
+
+class GiveUp(BaseException):
+    """three parses did not terminate: the verdict is settled, the driver stops generating and has the recorded ones judged"""
+
+
+HANGS = []          # (format record, tokens, lenient, form) of the parses that did not terminate
+_GIVE_UP = [True]
+
+
+def guarded(fn, *args, what=None):
+    try:
+        return budget.call(fn, *args, seconds=4)
+    except budget.Budget:
+        if what is not None and _GIVE_UP[0]:
+            HANGS.append(what)
+            if len(HANGS) >= 3:
+                raise GiveUp()
+        raise DoesNotTerminate()
+
+
+def judge_hangs(ctx, spec):
+    """called by a driver that caught GiveUp: the recorded inputs once more as full events, decided by ArgsParserTrace"""
+    _GIVE_UP[0] = False
+    traces = [[event(f, build_format(f), toks, lenient, form=form)] for f, toks, lenient, form in HANGS[:3]]
+    ctx.count(len(traces))
+    ctx.extra["parses_not_terminating"] = len(HANGS)
+    ctx.validate(spec, "ArgsParserTrace", "ArgsParserTrace.cfg", traces,
+                 cases=[{"fmt": f, "line": list(toks), "lenient": lenient, "formats": "random", "base": 0} for f, toks, lenient, form in HANGS[:3]], name="does-not-terminate")
+
+
 TYPE_OPT = {"str": 128, "bool": 256, "int": 512, "float": 1024}
 TYPE_ARG = {"str": 16, "bool": 32, "int": 64, "float": 128}
 MODE = {"none": 4, "req": 8, "opt": 16, "multi": 32}
@@ -121,7 +157,7 @@ def command_route(f, fobj, toks, form, keep=True):
     raw, _ = make_raw(list(toks), form)
     for key, mode in (("yes", True), ("no", False), ("dflt", None)):
         try:
-            parsed = cmd.parse(raw, mode) if mode is not None else cmd.parse(raw)
+            parsed = guarded(cmd.parse, raw, mode) if mode is not None else guarded(cmd.parse, raw)
             res, _x = project_args(f, parsed)
             out[key] = {"err": "none", "result": res}
         except Exception as e:  # noqa
@@ -188,7 +224,7 @@ def parse_once(parser, fmt_obj, f, tokens, lenient, form="argv"):
     """returns (err, result, extra)"""
     raw, _ = make_raw(list(tokens), form)
     try:
-        parsed = parser.parse(raw, fmt_obj, lenient)
+        parsed = guarded(parser.parse, raw, fmt_obj, lenient, what=(f, list(tokens), lenient, form))
     except Exception as e:  # noqa
         return ERR.get(type(e).__name__, "EXC:" + type(e).__name__), dict(NORES), None
     res, extra = project_args(f, parsed)
@@ -284,7 +320,7 @@ def event(f, fobj, tokens, lenient, parser=None, mut=None, recipe=None, form="ar
 
     msg = digest("")
     try:
-        parsed = p.parse(raw, fobj, lenient)
+        parsed = guarded(p.parse, raw, fobj, lenient, what=(f, list(toks), lenient, form))
         res, extra = project_args(f, parsed)
         err = "none"
     except Exception as e:  # noqa
